@@ -1,7 +1,9 @@
 import Cppcheck.Model.Wire
 /-
 C34 — model of the addon relay: `executeAddon` (line validation) and `CppCheck::executeAddons`
-(result conversion, severity filter) of lib/cppcheck.cpp, for ONE addon invocation on one file.
+(result conversion, severity filter) of lib/cppcheck.cpp, for ONE addon invocation on one file, followed by
+what the loggers do with the findings (suppressions, duplicate filters, exit status), and the
+collection of `summary` objects over ALL addons of a file (ctu-info).
 
 A JSON member is seen through the accessors the C++ uses: `get<std::string>()`, `get<int64_t>()`
 (both throw std::runtime_error on any other type or a missing member), `get<picojson::array>()`,
@@ -113,22 +115,28 @@ def decideSev (o : Opts) (id s : Str) : Option Sev :=
     (if endsWith id "-logChecker".toList then some .internal else none)
   else if o.enabled (sevOfStr s) then some (sevOfStr s) else none
 
+/-- `obj.count(k) > 0 ? obj[k].get<int64_t>() : <unset>`; outer `none` = the accessor throws -/
+def optInt (k : String) (f : Fields) : Option (Option Int) :=
+  if has k f then (getInt k f).map some else some none
+
+/-- the call stack built from the `file`/`linenr`/`column` members or, without `file`, from the `loc`
+    array (one entry per element, in order); `none` = an accessor throws -/
+def locsOf (ob : ObjLine) : Option (List Loc) :=
+  if has "file" ob.fields then
+    match getStr "file" ob.fields, getInt "linenr" ob.fields, getInt "column" ob.fields with
+    | some fl, some l, some c => some [⟨fl, l, c, []⟩]
+    | _, _, _ => none
+  else match ob.loc with
+    | .absent => some []
+    | .notArray => none
+    | .arr items => convLocs items
+
 /-- the loop body of `executeAddons` for one result object -/
 def convert (o : Opts) (ob : ObjLine) : Conv :=
   let f := ob.fields
   if has "summary" f then .skip
   else
-    -- locations
-    let locs : Option (List Loc) :=
-      if has "file" f then
-        match getStr "file" f, getInt "linenr" f, getInt "column" f with
-        | some fl, some l, some c => some [⟨fl, l, c, []⟩]
-        | _, _, _ => none
-      else match ob.loc with
-        | .absent => some []
-        | .notArray => none
-        | .arr items => convLocs items
-    match locs with
+    match locsOf ob with
     | none => .throw
     | some locs =>
       match ob.metric with
@@ -141,9 +149,7 @@ def convert (o : Opts) (ob : ObjLine) : Conv :=
           match decideSev o id s with
           | none => .skip
           | some sv =>
-            let cwe : Option (Option Int) := if has "cwe" f then (getInt "cwe" f).map some else some none
-            let hash : Option (Option Int) := if has "hash" f then (getInt "hash" f).map some else some none
-            match cwe, hash with
+            match optInt "cwe" f, optInt "hash" f with
             | some c, some h => .report ⟨id, sv, m, locs, c, h⟩
             | _, _ => .throw
         | _, _, _, _ => .throw
@@ -196,25 +202,141 @@ def summaryObjs (o : Opts) : List ObjLine → List ObjLine
       | .throw => []
       | _ => summaryObjs o r
 
-def summaries (o : Opts) (lines : List Line) : List ObjLine :=
-  if o.exitcode ≠ 0 then []
-  else match validate lines with
-    | none => []
-    | some objs => summaryObjs o objs
+/-- some conversion throws `std::runtime_error` -/
+def throws (o : Opts) (objs : List ObjLine) : Bool := objs.any fun ob => convert o ob = .throw
 
-/-- the ctu-info handed to whole-program analysis for one file: the summaries of ALL addons, in
-    addon order.  `outs` = the outputs of the addons that run in the per-file phase. -/
-def ctuInfo (o : Opts) (outs : List (List Line)) : List ObjLine :=
-  outs.flatMap (summaries o)
+/-- the result objects `executeAddon` hands back for one addon (none when it fails) -/
+def addonObjs (o : Opts) (lines : List Line) : List ObjLine :=
+  if o.exitcode ≠ 0 then [] else (validate lines).getD []
 
-/-- what the duplicate filters of the loggers compare: the rendered text is determined by these -/
-def Finding.key (f : Finding) : Str × Sev × Str × List Loc := (f.id, f.sev, f.msg, f.locs)
+def summaries (o : Opts) (lines : List Line) : List ObjLine := summaryObjs o (addonObjs o lines)
+
+/-- the loop over the addons of `executeAddons` for one file: the summaries seen, and whether a conversion
+    threw.  A throw leaves the function: the addons after it do not run.  (A failing addon - exit status,
+    non-brace line - is caught inside the loop: it contributes nothing and the loop goes on.) -/
+def ctuCollect (o : Opts) : List (List Line) → List ObjLine × Bool
+  | [] => ([], false)
+  | out :: r =>
+    if throws o (addonObjs o out) then (summaries o out, true)
+    else (summaries o out ++ (ctuCollect o r).1, (ctuCollect o r).2)
+
+/-- the ctu-info handed to whole-program analysis for one file.  `outs` = the outputs of the addons that
+    run in the per-file phase, in the order they run.  Without a build dir every summary is reported as it is
+    seen (an internal `ctuinfo` message); with a build dir they are collected in a string that is written to
+    the `.ctu-info` file at the END of `executeAddons` - a throw loses all of them. -/
+def ctuInfo (builddir : Bool) (o : Opts) (outs : List (List Line)) : List ObjLine :=
+  if (ctuCollect o outs).2 && builddir then [] else (ctuCollect o outs).1
+
+/-! ### what the loggers do with the relayed findings -/
+
+/-- what the duplicate filters of the loggers compare: the text rendered from the (default) templates
+    `{file}:{line}:{column}: {severity}: {message} [{id}]\n{code}` (file/line/column of the LAST location) and,
+    only for call stacks of two or more locations, `{file}:{line}:{column}: note: {info}\n{code}` per location with
+    an empty info replaced by the message.  cwe and hash are not rendered. -/
+def Finding.key (f : Finding) : Str × Sev × Str × List Loc :=
+  (f.id, f.sev, f.msg,
+    match f.locs with
+    | [] => []
+    | [l] => [{ l with info := [] }]
+    | ls => ls.map fun l => if l.info = [] then { l with info := f.msg } else l)
 
 /-- `mErrorList` / `mShownErrors`: only the first finding of each rendered text is shown -/
 def dedupAux : List Finding → List (Str × Sev × Str × List Loc) → List Finding
   | [], _ => []
-  | f :: r, seen => if seen.contains f.key then dedupAux r seen else f :: dedupAux r (f.key :: seen)
+  | f :: r, seen => if f.key ∈ seen then dedupAux r seen else f :: dedupAux r (f.key :: seen)
 
 def dedup (fs : List Finding) : List Finding := dedupAux fs []
+
+/-- what `SuppressionList::ErrorMessage::fromErrorMessage` hands to the suppression matcher: the id, file and
+    line of the LAST location (`none`: no location - the matcher then sees file0 and no line), the hash -/
+structure SuppView where
+  id : Str
+  loc : Option (Str × Int)
+  hash : Option Int
+  deriving DecidableEq, Repr, Inhabited
+
+def Finding.suppView (f : Finding) : SuppView :=
+  ⟨f.id, f.locs.getLast?.map (fun l => (l.file, l.line)), f.hash⟩
+
+/-- the findings of one addon invocation that are printed: `CppCheckLogger::reportErr` hands findings of
+    severity internal (the `-logChecker` notes) straight to the executor, which consumes them; every other
+    finding is dropped when a suppression matches it (`supp` = the matcher, the same as for any built-in
+    finding) and then goes through the duplicate filters -/
+def relayShown (o : Opts) (supp : SuppView → Bool) (lines : List Line) : List Finding :=
+  dedup ((relay o lines).findings.filter fun f => f.sev ≠ .internal && !supp f.suppView)
+
+/-- the `internalError` finding of a failed invocation is printed unless it is suppressed itself -/
+def internalErrorShown (o : Opts) (supp : SuppView → Bool) (file0 : Str) (lines : List Line) : Bool :=
+  (relay o lines).isFailed && !supp ⟨"internalError".toList, some (file0, 0), none⟩
+
+/-- exit status of the process (`--error-exitcode=e`, no other finding in the run) -/
+def exitStatus (e : Nat) (o : Opts) (supp : SuppView → Bool) (file0 : Str) (lines : List Line) : Nat :=
+  if internalErrorShown o supp file0 lines || !(relayShown o supp lines).isEmpty then e else 0
+
+/-- the glob-free fragment of the suppression matcher (`--suppress=<id>[:<file>[:<line>]]`, `*` = any id; the
+    full matcher belongs to property C23), used by the tie as a concrete instance of `supp` -/
+structure SimpleSupp where
+  id : Option Str
+  file : Option Str
+  line : Option Int
+  deriving DecidableEq, Repr, Inhabited
+
+def SimpleSupp.matches (s : SimpleSupp) (file0 : Str) (v : SuppView) : Bool :=
+  (match s.id with | none => true | some i => i = v.id) &&
+  (match s.file with
+   | none => true
+   | some fl => fl = (match v.loc with | some (f, _) => f | none => file0)) &&
+  (match s.line with
+   | none => true
+   | some l => match v.loc with | some (_, l') => l = l' | none => false)
+
+def simpleSupp (ss : List SimpleSupp) (file0 : Str) (v : SuppView) : Bool := ss.any fun s => s.matches file0 v
+
+/-- classes of addon output (for the evidence: which kind of malformed output a case is) -/
+inductive OutClass | clean | skippedLines | exitNonZero | nonBrace | illTyped
+  deriving DecidableEq, Repr, Inhabited
+
+def Line.skipped : Line → Bool
+  | .empty | .checking | .badJson => true
+  | _ => false
+
+def outClass (o : Opts) (lines : List Line) : OutClass :=
+  if o.exitcode ≠ 0 then .exitNonZero
+  else match validate lines with
+    | none => .nonBrace
+    | some objs => if throws o objs then .illTyped else if lines.any Line.skipped then .skippedLines else .clean
+
+/-! ### raw text → lines (the JSON parser is a parameter) -/
+
+/-- `std::getline` over the captured output -/
+def splitLinesAux : Str → Str → List Str
+  | [], [] => []
+  | [], cur => [cur.reverse]
+  | c :: r, cur => if c = '\n' then cur.reverse :: splitLinesAux r [] else splitLinesAux r (c :: cur)
+
+def splitLines (s : Str) : List Str := splitLinesAux s []
+
+inductive RawKind | empty | checking | notBrace | brace
+  deriving DecidableEq, Repr, Inhabited
+
+/-- the tests of `executeAddon`'s validation loop on one line, in their order -/
+def rawKind (s : Str) : RawKind :=
+  match s with
+  | [] => .empty
+  | c :: _ =>
+    if "Checking ".toList.isPrefixOf s then .checking
+    else if c ≠ '{' then .notBrace
+    else .brace
+
+/-- `parse` = `picojson::parse` + `is<object>` + the scalar view of the members (`none` = parse error or not
+    an object) -/
+def lineOf (parse : Str → Option ObjLine) (s : Str) : Line :=
+  match rawKind s with
+  | .empty => .empty
+  | .checking => .checking
+  | .notBrace => .notBrace
+  | .brace => match parse s with | none => .badJson | some ob => .obj ob
+
+def linesOf (parse : Str → Option ObjLine) (text : Str) : List Line := (splitLines text).map (lineOf parse)
 
 end Cppcheck.Addon
